@@ -1,0 +1,46 @@
+//go:build verif
+
+package poly1305
+
+// Verification hooks for /verif check C04 (build tag "verif" only): the portable
+// implementation, which on platforms with an assembly update is otherwise unreachable,
+// and read access to the accumulator.
+
+// VerifC04SumGeneric is the unexported sumGeneric (portable one-shot).
+func VerifC04SumGeneric(out *[TagSize]byte, msg []byte, key *[32]byte) {
+	sumGeneric(out, msg, key)
+}
+
+// VerifC04GenericMAC is the portable incremental MAC (macGeneric: updateGeneric + the
+// shared finalize).
+type VerifC04GenericMAC struct {
+	m macGeneric
+}
+
+// VerifC04NewGenericMAC returns a portable MAC for the given one-time key.
+func VerifC04NewGenericMAC(key *[32]byte) *VerifC04GenericMAC {
+	return &VerifC04GenericMAC{m: newMACGeneric(key)}
+}
+
+func (g *VerifC04GenericMAC) Write(p []byte) (int, error) { return g.m.Write(p) }
+
+// Sum appends the tag to b (the state is not modified, as for macGeneric.Sum).
+func (g *VerifC04GenericMAC) Sum(b []byte) []byte {
+	var t [TagSize]byte
+	g.m.Sum(&t)
+	return append(b, t[:]...)
+}
+
+// VerifC04FinalH returns the accumulator limbs exactly as macGeneric.Sum hands them to
+// finalize: a copy of the state with the buffered partial block, if any, absorbed.
+func (g *VerifC04GenericMAC) VerifC04FinalH() [3]uint64 {
+	state := g.m.macState
+	if g.m.offset > 0 {
+		updateGeneric(&state, g.m.buffer[:g.m.offset])
+	}
+	return state.h
+}
+
+// VerifC04H returns the accumulator limbs of the dispatching MAC (whole blocks absorbed
+// so far; buffered bytes not included).
+func (h *MAC) VerifC04H() [3]uint64 { return h.mac.h }
